@@ -61,7 +61,8 @@ main() {
         else
             echo Newest changeset failed to compile
             # Mark data as failed for use in 'newpolicy'.
-            touch $POLICYDB/failed
+            # Remember failed revision for use in 'uptodate'.
+            git -C $PSRC rev-parse HEAD > $POLICYDB/failed
             [ "$PREV_POLICY" ] &&
                 echo "Left current policy as '$PREV_POLICY'"
             if try_revert; then
@@ -82,7 +83,11 @@ uptodate () {
      DIR=$CURRENT
      # Directory 'next' is left over after failed compile.
      # But if it is left over from aborted run, it must be processed again.
-     [ -d $NEXT ] && [ -f $POLICYDB/failed ] && DIR=$NEXT
+     # Hence check that 'next' has revision that is marked as failed.
+     [ -d $NEXT ] && [ -f $POLICYDB/failed ] &&
+         [ "$(cat $POLICYDB/failed)" == \
+           "$(git -C $NEXT/src rev-parse HEAD 2>/dev/null)" ] &&
+         DIR=$NEXT
      [ -f "$DIR/src/.git/refs/heads/master" ] || return 1
      cd $DIR/src
      rev1=$(git rev-parse HEAD)
